@@ -603,6 +603,79 @@ def crowd_retry(s):
 SCRIPTS["crowd-retry"] = crowd_retry
 
 
+def reuse_after_prune(s):
+    """C01 C02 C05 C08 C11 (every change that keeps something about a mailbox or nameplate in memory): a mailbox
+    (with or without nameplate) is used by some sides, everybody drops WITHOUT closing (so the server's in-memory
+    object stays), the expiry sweep deletes its rows, and then the same mailbox id / nameplate name is used again in
+    the same process -- by other sides, by the same sides, by more than before: it must behave like a brand-new one
+    (empty, uncrowded, closable), exactly as it would on a server rebuilt from the files"""
+    r = s.rng
+    app = r.choice(["a1", "a2"])
+    P, E = s.w.PERIOD, s.w.EXP
+    mbox = r.choice(["m1", "mreuse"])
+    name = r.choice(["1", "5"])
+    use_np = r.random() < 0.4
+    first = r.sample(["s1", "s2", "s3"], r.choice([1, 2, 2, 3]))
+    conns = []
+    for side in first:
+        c = Client(s, app, side)
+        if use_np:
+            o = c.cmd({"type": "claim", "nameplate": name})
+            for e in o["log"]:
+                if e[0] == "F" and e[3] == "claimed" and isinstance(e[4], str):
+                    mbox = bytes.fromhex(e[4]).decode("utf-8")
+        c.cmd({"type": "open", "mailbox": mbox})
+        c.cmd({"type": "add", "phase": "old", "body": "0%d" % len(conns)})
+        conns.append(c)
+    if r.random() < 0.3 and conns:
+        conns[0].cmd({"type": "close", "mood": "happy"})       # one of them closes properly, the others just vanish
+    if r.random() < 0.3:
+        conns[-1].cmd({"type": "list"})
+    for c in conns:
+        c.drop()
+    other = Client(s, "a3", "s1")                               # (another app keeps a live channel through all of it)
+    other.cmd({"type": "open", "mailbox": mbox})
+    x = r.random()
+    if x < 0.5:
+        for k in range(E // P + 2):
+            _adv(s, P)
+            if k == 1:
+                other.cmd({"type": "add", "phase": "p", "body": "aa"})
+    else:
+        _adv(s, E + P + r.choice([0, 1, P]))
+    # the id comes back
+    second = r.sample(["s1", "s2", "s3", "s4"], r.choice([1, 2, 2, 3]))
+    back = []
+    for side in second:
+        c = Client(s, app, side)
+        if use_np:
+            o = c.cmd({"type": "claim", "nameplate": name})
+            m2 = None
+            for e in o["log"]:
+                if e[0] == "F" and e[3] == "claimed" and isinstance(e[4], str):
+                    m2 = bytes.fromhex(e[4]).decode("utf-8")
+            c.cmd({"type": "open", "mailbox": m2 if (m2 is not None and r.random() < 0.6) else mbox})
+        else:
+            c.cmd({"type": "open", "mailbox": mbox})
+        c.cmd({"type": "add", "phase": "new", "body": "1%d" % len(back)})
+        back.append(c)
+    if r.random() < 0.5:
+        s.emit({"k": "restart"})
+        s.cinfo.clear()
+        c = Client(s, app, second[0])
+        c.cmd({"type": "open", "mailbox": mbox})
+        back = [c]
+    for c in back:
+        if r.random() < 0.8:
+            c.cmd({"type": "close", "mailbox": mbox, "mood": r.choice(["happy", "lonely"])})
+    late = Client(s, app, r.choice(second))
+    late.cmd({"type": "open", "mailbox": mbox})
+    late.cmd({"type": "list"})
+
+
+SCRIPTS["reuse-after-prune"] = reuse_after_prune
+
+
 def run(name, session):
     SCRIPTS[name](session)
 
